@@ -6,6 +6,7 @@ import string
 import textwrap
 
 from ..cfg import CFG
+from ..core import ordkey
 from ..core import (AnalysisError, DefRef, NotConst, Ref, call_name, calls_in, dotted, func_params, get_kw, norm, qualname_of,
                     walk_no_nested)
 from .c08 import concrete_field_kinds
@@ -421,7 +422,7 @@ def run(ctx):
         if src is not None:
             for st in walk_no_nested(rd):
                 if isinstance(st, ast.Assign) and norm(st.targets[0]) == norm(src) and isinstance(st.value, ast.Call) and \
-                        isinstance(st.value.func, ast.Attribute) and st.value.func.attr == "read" and st.lineno <= ucall.lineno:
+                        isinstance(st.value.func, ast.Attribute) and st.value.func.attr == "read" and ordkey(st) <= ordkey(ucall):
                     try:
                         read_n = prog.fold(stream_m, st.value.args[0])
                     except (NotConst, IndexError):
